@@ -1256,6 +1256,20 @@ class Interval(DataType):
         a Pandera :class:`pandera.engines.pandas_engine.Interval`."""
         return cls(subtype=pd_dtype.subtype, closed=pd_dtype.closed)  # type: ignore
 
+    def check(
+        self,
+        pandera_dtype: dtypes.DataType,
+        data_container: Optional[PandasObject] = None,
+    ) -> Union[bool, Iterable[bool]]:
+        try:
+            pandera_dtype = Engine.dtype(pandera_dtype)
+        except TypeError:
+            return False
+        if self.closed is None and isinstance(pandera_dtype, Interval):
+            # no closed side declared: intervals closed on any side conform
+            return self.type.subtype == pandera_dtype.type.subtype
+        return super().check(pandera_dtype, data_container)
+
 
 ###############################################################################
 # pydantic
